@@ -215,6 +215,23 @@ def access_cases(cname, cfg, opts, tier):
                 # round trip through the object's own raw array (the property's wording; also valid for padded aligned columns)
                 k = K('%s_rtmat_%s' % (cfg.name, dmt.tag), [Par('o', dmt, False), Par('m', dmt)], '*o = make_mat%dx%d(value_ptr(*m));' % (C, Rr), cfg)
                 cs.append(sel_case('make_mat%dx%d(value_ptr(m))<%s>@%s' % (C, Rr, T, cname), 'round_trip', k, dmt, {(c, r): ('m', dmt, (c, r)) for c in range(C) for r in range(Rr)}))
+        for C in (2, 3, 4):
+            # the square aliases make_mat2 / make_mat3 / make_mat4
+            mt = G.mat(C, C, T, 'packed_highp')
+            arr = G.Ty('arr', sc.cpp, sc.elem, sc.elem * C * C, {i: i * sc.elem for i in range(C * C)}, T, (C * C,))
+            dmt = G.mat(C, C, T, 'aligned_highp' if opts.get('default_aligned') else 'packed_highp')
+            if not opts.get('default_aligned'):
+                k = K('%s_mkmatsq_%s' % (cfg.name, mt.tag), [Par('o', dmt, False), Par('p', arr)], '*o = make_mat%d(p);' % C, cfg)
+                cs.append(sel_case('make_mat%d<%s>@%s' % (C, T, cname), 'make', k, dmt, {(c, r): ('p', arr, c * C + r) for c in range(C) for r in range(C)}))
+            k = K('%s_rtmatsq_%s' % (cfg.name, dmt.tag), [Par('o', dmt, False), Par('m', dmt)], '*o = make_mat%d(value_ptr(*m));' % C, cfg)
+            cs.append(sel_case('make_mat%d(value_ptr(m))<%s>@%s' % (C, T, cname), 'round_trip', k, dmt, {(c, r): ('m', dmt, (c, r)) for c in range(C) for r in range(C)}))
+        for Lo in (1, 2, 3, 4):
+            # make_vecN(vecM): the leading min(N, M) components in order (the padding values are not part of the contract and are not judged)
+            for Li in (1, 2, 3, 4):
+                for Q in (('packed_highp', 'aligned_highp') if opts.get('aligned') else ('packed_highp',)):
+                    vo, vi_ = G.vec(Lo, T, Q), G.vec(Li, T, Q)
+                    k = K('%s_mkvv_%s_%s' % (cfg.name, vo.tag, vi_.tag), [Par('o', vo, False), Par('v', vi_)], '*o = make_vec%d(*v);' % Lo, cfg)
+                    cs.append(sel_case('make_vec%d(vec%d<%s,%s>)@%s' % (Lo, Li, T, Q, cname), 'make', k, vo, {i: ('v', vi_, i) for i in range(min(Lo, Li))}))
         for Lv in (2, 3, 4):
             dvt = G.vec(Lv, T, 'aligned_highp' if opts.get('default_aligned') else 'packed_highp')
             arr = G.Ty('arr', sc.cpp, sc.elem, sc.elem * Lv, {i: i * sc.elem for i in range(Lv)}, T, (Lv,))
